@@ -10,7 +10,8 @@
 From Coq Require Import ZArith List Ascii Bool.
 From Cspuz Require Import Lib.PyErr Codec.Comb Codec.CombWf Codec.Yajilin Codec.Puzzles
   Codec.TotalModel Codec.TotalLeaf Codec.TotalRooms Codec.Total Codec.TotalDims Codec.TotalRedecode Codec.TotalCodecs
-  Codec.TotalReencLeaf Codec.TotalReenc Codec.TotalReencRooms Codec.TotalReencCodecs Codec.TotalReencYajilin Codec.TotalReencWitness Gen.Codecs.
+  Codec.TotalReencModel Codec.TotalReencLeaf Codec.TotalReenc Codec.TotalReencRooms Codec.TotalReencCodecs Codec.TotalReencYajilin
+  Codec.TotalReencUrl Codec.TotalReencWitness Gen.Codecs.
 Import ListNotations.
 Local Open Scope Z_scope.
 
